@@ -83,6 +83,10 @@ ASSUMPTIONS = [
     "that reaches a violation of the statement itself",
     "liveness is judged only in the fault-free classes with bounded delays, at a deadline of >= 12 maximal one-way delays "
     "(paxos) / 2 heartbeat intervals + 12 delays (multi/flex) after the last client action",
+    "leader election: one strategy object may be shared by all LeaderElection nodes or each node may get its own - the "
+    "API takes any ElectionStrategy instance and documents no ownership, so both wirings are generated (50/50) for every "
+    "strategy class; other constructor arguments cannot be shared in a meaningful way (members/peers are copied, each "
+    "Multi/Flexible node needs its own state machine, the network is shared in every run)",
     "leader election: membership is static (all members registered before start(), the same set at every node); "
     "(term, leader) pairs are read from current_term/current_leader after every delivery, leader None is not a report",
     "lock: a re-entrant acquire by the current holder returns the current grant and is not a new grant; tokens are "
@@ -96,7 +100,8 @@ EXPECTED_PROBES = [
     "probe.ml_commit_via_heartbeat", "probe.ml_pending_assigned_on_takeover", "probe.ml_future_resolved",
     "probe.ml_promise_reported_entries", "probe.ml_leader_kept_leading_after_own_tick", "probe.ml_command_after_first_tick_applied_everywhere",
     "probe.flex_q2_below_majority", "probe.px_decided_on_retried_ballot", "probe.px_four_proposers",
-    "probe.el_election_completed", "probe.el_heartbeat_adopted", "probe.el_terms_differ_for_one_leader",
+    "probe.el_election_completed", "probe.el_shared_strategy_election_completed", "probe.el_highest_started_first",
+    "probe.el_several_started_at_once", "probe.el_heartbeat_adopted", "probe.el_terms_differ_for_one_leader",
     "probe.lock_expired", "probe.lock_waiter_woken", "probe.lock_reentrant", "probe.lock_stale_release_refused",
     "fault.partition", "fault.crash", "fault.pause", "fault.loss", "fault.restart",
     "fault.msgs_dropped_by_partition", "fault.msgs_dropped_by_loss", "fault.stragglers",
